@@ -90,6 +90,8 @@ type Check[C any] struct {
 	Classify func(C) (bool, []string)
 	// After (optional) reports classes measured while the case ran.
 	After func(C) []string
+	// Extra (optional) reports measured counters for the evidence at the end of the run.
+	Extra func() map[string]any
 }
 
 func (c Check[C]) key() string { return c.Property + "/" + c.Stage }
@@ -176,6 +178,11 @@ func (c Check[C]) Rapid(t *testing.T) {
 		last = v
 		failCase(rt, v)
 	})
+	if c.Extra != nil {
+		for k, v := range c.Extra() {
+			col.SetExtra(k, v)
+		}
+	}
 	if last != nil {
 		fmt.Printf("VIOLATION-DETAIL property=%s stage=%s signature=%s replay=%s\n%s\n", c.Property, c.Stage, last.Signature, lastPath, last.Message)
 	}
